@@ -880,4 +880,181 @@ theorem rcvDestroyKeys_hk (w : World) (me : Pid) (l : List (Nat × Pid)) : HkR m
     simp only [rcvDestroyKeys]
     exact (HkR.detachReceiver w f me).trans (ih _)
 
+/-! ### the update cycle -/
+
+theorem initState_mk (b : Bool) (n : Nat) : initState ⟨b, n⟩ = if b then .closed else .id 0 false := rfl
+
+theorem portUpdateSlots_spec (w : World) (me : Pid) (peerSrv : Bool) (sndCap : Nat)
+    (entries : List (Option (Nat × Nat))) (i : Nat) (st rt : List Nat)
+    (hS : ∀ S, getSnd w me = some S → S.init = initState me)
+    (hR : ∀ R, getRcv w me = some R → R.init = initState ⟨peerSrv, 0⟩) :
+    Hk me w (portUpdateSlots w me peerSrv sndCap entries i st rt).1 ∧
+    SlotsFrom me (fun j t => i ≤ j ∧ ∃ n, entries[j - i]? = some (some (t.n, n)) ∧ t.srv = peerSrv) w
+      (portUpdateSlots w me peerSrv sndCap entries i st rt).1 := by
+  induction entries generalizing w i st rt with
+  | nil => exact ⟨Hk.refl _ _, SlotsFrom.refl _ _ _⟩
+  | cons a r ih =>
+    cases a with
+    | none =>
+      simp only [portUpdateSlots]
+      obtain ⟨h1, s1⟩ := ih w (i + 1) st rt hS hR
+      refine ⟨h1, s1.mono ?_⟩
+      rintro j t ⟨hij, n, hn, ht⟩
+      refine ⟨by omega, n, ?_, ht⟩
+      have : j - i = (j - (i + 1)) + 1 := by omega
+      rw [this, List.getElem?_cons_succ]; exact hn
+    | some pn =>
+      obtain ⟨peer, n⟩ := pn
+      simp only [portUpdateSlots]
+      have hR' : ∀ R, getRcv w me = some R → R.init = initState ⟨peerSrv, peer⟩ := hR
+      have h1 := rcvUpdateConn_hk w me i ⟨peerSrv, peer⟩ n hR'
+      have hS1 := h1.toHk.sndInit_keep _ hS
+      obtain ⟨h2, s2⟩ := sndUpdateConn_hk (rcvUpdateConn w me i ⟨peerSrv, peer⟩ n).1 me i ⟨peerSrv, peer⟩ sndCap hS1
+      have h12 := h1.toHk.trans h2
+      obtain ⟨h3, s3⟩ := ih (sndUpdateConn (rcvUpdateConn w me i ⟨peerSrv, peer⟩ n).1 me i ⟨peerSrv, peer⟩ sndCap) (i + 1)
+        (i :: st) (match (rcvUpdateConn w me i ⟨peerSrv, peer⟩ n).2 with | some k => k :: rt | none => rt)
+        (h12.sndInit_keep _ hS) (h12.rcvInit_keep _ hR)
+      refine ⟨h12.trans h3, ?_⟩
+      have s1 : SlotsFrom me (fun j t => i ≤ j ∧ ∃ n', ((some (peer, n)) :: r)[j - i]? = some (some (t.n, n')) ∧ t.srv = peerSrv) w
+          (rcvUpdateConn w me i ⟨peerSrv, peer⟩ n).1 := (h1.slotsSame me).from _
+      refine (s1.trans (s2.mono ?_)).trans (s3.mono ?_)
+      · rintro j t ⟨rfl, rfl⟩
+        exact ⟨Nat.le_refl _, n, by simp, rfl⟩
+      · rintro j t ⟨hij, n', hn, ht⟩
+        refine ⟨by omega, n', ?_, ht⟩
+        have : j - i = (j - (i + 1)) + 1 := by omega
+        rw [this, List.getElem?_cons_succ]; exact hn
+
+/-- what a force-update of port `me` against the registry snapshot `sp` does -/
+def UpdSpec (me : Pid) (peerSrv : Bool) (slots : List (Option (Nat × Nat))) (w w' : World) : Prop :=
+  Hk me w w' ∧ SlotsFrom me (fun j t => ∃ n, slots[j]? = some (some (t.n, n)) ∧ t.srv = peerSrv) w w'
+
+theorem clientForceUpdate_spec (w : World) (c : Nat)
+    (hS : ∀ S, getSnd w (cid c) = some S → S.init = initState (cid c))
+    (hR : ∀ R, getRcv w (cid c) = some R → R.init = .closed) :
+    ∀ sp, getSnap w (cid c) = some sp → UpdSpec (cid c) true sp.slots w (clientForceUpdate w c) := by
+  intro sp hsp
+  unfold clientForceUpdate
+  rw [hsp]
+  simp only []
+  obtain ⟨h1, s1⟩ := portUpdateSlots_spec w (cid c) true w.cfg.maxActive sp.slots 0 [] [] hS hR
+  generalize portUpdateSlots w (cid c) true w.cfg.maxActive sp.slots 0 [] [] = res at h1 s1
+  obtain ⟨w1, st, rt⟩ := res
+  simp only [] at h1 s1 ⊢
+  have h2 := rcvFinish_hk w1 (cid c) rt (rcvSlots w1 (cid c)) 0
+  obtain ⟨h3, s3⟩ := sndFinish_hk (rcvFinish w1 (cid c) rt (rcvSlots w1 (cid c)) 0) (cid c) st
+    (sndSlots (rcvFinish w1 (cid c) rt (rcvSlots w1 (cid c)) 0) (cid c))
+  refine ⟨(h1.trans h2.toHk).trans h3, ?_⟩
+  refine ((s1.mono ?_).trans ((h2.slotsSame _).from _)).trans (s3.mono fun _ _ h => h.elim)
+  rintro j t ⟨_, n, hn, ht⟩
+  exact ⟨n, by simpa using hn, ht⟩
+
+theorem serverForceUpdate_spec (w : World) (s : Nat)
+    (hS : ∀ S, getSnd w (sid s) = some S → S.init = initState (sid s))
+    (hR : ∀ R, getRcv w (sid s) = some R → R.init = .id 0 false) :
+    ∀ sp, getSnap w (sid s) = some sp → UpdSpec (sid s) false sp.slots w (serverForceUpdate w s) := by
+  intro sp hsp
+  unfold serverForceUpdate
+  rw [hsp]
+  simp only []
+  obtain ⟨h1, s1⟩ := portUpdateSlots_spec w (sid s) false w.cfg.respBuf sp.slots 0 [] [] hS hR
+  generalize portUpdateSlots w (sid s) false w.cfg.respBuf sp.slots 0 [] [] = res at h1 s1
+  obtain ⟨w1, st, rt⟩ := res
+  simp only [] at h1 s1 ⊢
+  obtain ⟨h2, s2⟩ := sndFinish_hk w1 (sid s) st (sndSlots w1 (sid s))
+  have h3 := rcvFinish_hk (sndFinish w1 (sid s) st (sndSlots w1 (sid s))) (sid s) rt
+    (rcvSlots (sndFinish w1 (sid s) st (sndSlots w1 (sid s))) (sid s)) 0
+  refine ⟨(h1.trans h2).trans h3.toHk, ?_⟩
+  refine ((s1.mono ?_).trans (s2.mono fun _ _ h => h.elim)).trans ((h3.slotsSame _).from _)
+  rintro j t ⟨_, n, hn, ht⟩
+  exact ⟨n, by simpa using hn, ht⟩
+
+theorem Hk.setSnap {me : Pid} (w : World) (p : Pid) (x : Snap) : Hk me w (setSnap w p x) :=
+  ⟨rfl, rfl, rfl, rfl, rfl, fun _ _ => rfl, fun _ _ => rfl, rfl, rfl, ConnsLe.of_eq fun _ _ => rfl⟩
+
+/-- `update_connections` of a client: nothing, or a force-update against the current server registry -/
+theorem clientUpdate_spec (w : World) (c : Nat)
+    (hS : ∀ S, getSnd w (cid c) = some S → S.init = initState (cid c))
+    (hR : ∀ R, getRcv w (cid c) = some R → R.init = .closed) :
+    UpdSpec (cid c) true w.serverReg.slots w (clientUpdate w c) := by
+  unfold clientUpdate
+  split
+  · exact ⟨Hk.refl _ _, SlotsFrom.refl _ _ _⟩
+  · split
+    · exact ⟨Hk.refl _ _, SlotsFrom.refl _ _ _⟩
+    · have h0 : Hk (cid c) w (setSnap w (cid c) { ctr := w.serverReg.counter, slots := w.serverReg.slots }) := Hk.setSnap _ _ _
+      obtain ⟨h1, s1⟩ := clientForceUpdate_spec (setSnap w (cid c) { ctr := w.serverReg.counter, slots := w.serverReg.slots }) c
+        (by simpa using hS) (by simpa using hR) { ctr := w.serverReg.counter, slots := w.serverReg.slots } (by simp)
+      refine ⟨h0.trans h1, ?_⟩
+      intro S' hS'
+      obtain ⟨S, hS0, k⟩ := s1 S' hS'
+      exact ⟨S, by simpa using hS0, k⟩
+
+theorem serverUpdate_spec (w : World) (s : Nat)
+    (hS : ∀ S, getSnd w (sid s) = some S → S.init = initState (sid s))
+    (hR : ∀ R, getRcv w (sid s) = some R → R.init = .id 0 false) :
+    UpdSpec (sid s) false w.clientReg.slots w (serverUpdate w s) := by
+  unfold serverUpdate
+  split
+  · exact ⟨Hk.refl _ _, SlotsFrom.refl _ _ _⟩
+  · split
+    · exact ⟨Hk.refl _ _, SlotsFrom.refl _ _ _⟩
+    · have h0 : Hk (sid s) w (setSnap w (sid s) { ctr := w.clientReg.counter, slots := w.clientReg.slots }) := Hk.setSnap _ _ _
+      obtain ⟨h1, s1⟩ := serverForceUpdate_spec (setSnap w (sid s) { ctr := w.clientReg.counter, slots := w.clientReg.slots }) s
+        (by simpa using hS) (by simpa using hR) { ctr := w.clientReg.counter, slots := w.clientReg.slots } (by simp)
+      refine ⟨h0.trans h1, ?_⟩
+      intro S' hS'
+      obtain ⟨S, hS0, k⟩ := s1 S' hS'
+      exact ⟨S, by simpa using hS0, k⟩
+
+theorem getSnd_sndDestroySlots (me : Pid) (l : List (Option Pid)) (w0 : World) (p : Pid) :
+    getSnd (sndDestroySlots w0 me l) p = getSnd w0 p := by
+  induction l generalizing w0 with
+  | nil => rfl
+  | cons a r ih =>
+    cases a with
+    | none => simpa [sndDestroySlots] using ih w0
+    | some t => simp only [sndDestroySlots]; rw [ih]; simp
+
+theorem getRcv_rcvDestroyKeys (me : Pid) (l : List (Nat × Pid)) (w0 : World) (p : Pid) :
+    getRcv (rcvDestroyKeys w0 me l) p = getRcv w0 p := by
+  induction l generalizing w0 with
+  | nil => rfl
+  | cons a r ih => obtain ⟨k, f⟩ := a; simp only [rcvDestroyKeys]; rw [ih]; simp
+
+theorem sndDestroyAll_hk (w : World) (me : Pid) :
+    Hk me w (sndDestroyAll w me) ∧ SlotsFrom me (fun _ _ => False) w (sndDestroyAll w me) := by
+  unfold sndDestroyAll
+  split
+  · next S hS =>
+    obtain ⟨h1, _⟩ := sndDestroySlots_hk w me S.conns
+    have hS1 : getSnd (sndDestroySlots w me S.conns) me = some S := by rw [getSnd_sndDestroySlots]; exact hS
+    refine ⟨h1.trans (Hk.setSnd hS1 (by rfl)), ?_⟩
+    intro S' hS'
+    simp only [getSnd_setSnd, if_true, Option.some.injEq] at hS'
+    subst hS'
+    refine ⟨S, hS, fun i t ht => ?_⟩
+    exfalso
+    simp only [List.getD_eq_getElem?_getD, List.getElem?_map] at ht
+    cases h : S.conns[i]? <;> simp [h] at ht
+  · exact ⟨Hk.refl _ _, SlotsFrom.refl _ _ _⟩
+
+theorem rcvDestroyAll_hk (w : World) (me : Pid) : HkR me w (rcvDestroyAll w me) := by
+  unfold rcvDestroyAll
+  split
+  · next R hR =>
+    have h2 := rcvDestroyKeys_hk w me (SlotMap.items R.storage)
+    have hR2 : getRcv (rcvDestroyKeys w me (SlotMap.items R.storage)) me = some R := by
+      rw [getRcv_rcvDestroyKeys]; exact hR
+    exact h2.trans (HkR.setRcv hR2 (by rfl))
+  · exact HkR.refl _ _
+
+/-- both ports of a dropped shared state go: every slot of the `Sender` is cleared -/
+theorem portDestroy_hk (w : World) (me : Pid) :
+    Hk me w (portDestroy w me) ∧ SlotsFrom me (fun _ _ => False) w (portDestroy w me) := by
+  unfold portDestroy
+  obtain ⟨h1, s1⟩ := sndDestroyAll_hk w me
+  have h2 := rcvDestroyAll_hk (sndDestroyAll w me) me
+  exact ⟨h1.trans h2.toHk, s1.trans ((h2.slotsSame _).from _)⟩
+
 end Iox2.ReqRes
